@@ -307,6 +307,20 @@ def _run_case(ctx, case, scratch, dep, srcdir, scripts, sheets, wit):
                 and after.get(os.path.normpath(os.path.join(os.path.relpath(destdir, out), "sibling-keep", "k.txt"))) is None:
             ctx.violation("sibling-directory-removed", "a sibling of the dependency's directory was removed", wit)
             return False
+    if local and not case["missing"] and ctx.rng.random() < 0.3:
+        # doing it again over the result of the first time gives the same tree (no accumulation, no dependence on the earlier copy)
+        try:
+            if via == "copy_to":
+                dep.copy_to(destdir, include_version=iv)
+            else:
+                obj.save_html(file, libdir=libdir, include_version=iv)
+        except Exception as e:
+            ctx.violation("copy-raises", "second %s over an existing result raised %r" % (via, e), wit)
+            return False
+        ctx.count("monitor.repeat_copies")
+        if snapshot(out) != after:
+            ctx.violation("second-copy-differs", "copying again over an existing result changed the destination tree", wit)
+            return False
     if via == "copy_to":
         return True
     # ---- the written file
